@@ -170,6 +170,10 @@ func runBehaviour(b *Behaviour, opts *MatOpts, src string, onCall func(k int, c 
 				gone[tr.flowIdx[w.FlowReference().UUID]] = true
 			case "parent_gone":
 				gone[c.F] = true
+			case "group_added":
+				o2 := *opts
+				o2.QueryGroup = true
+				opts = &o2 // for the rest of this behaviour only (opts is a parameter)
 			case "node_gone", "pnode_gone", "wait_gone", "wait_dial":
 				switch c.Kind {
 				case "node_gone", "pnode_gone":
